@@ -508,21 +508,32 @@ func (s *Writer) loadSnapshot(epoch uint64) (*Snapshot, error) {
 	}
 
 	var running uint64
-	for _, segSnapshot := range snapshot.segment {
+	for i, segSnapshot := range snapshot.segment {
 		segPlugin, err := loadSegmentPlugin(s.config.supportedSegmentPlugins, segSnapshot.segmentType, segSnapshot.segmentVersion)
 		if err != nil {
+			closeLoadedSegments(snapshot, i)
 			return nil, fmt.Errorf("error loading required segment plugin: %v", err)
 		}
-		segSnapshot.segment, err = s.loadSegment(segSnapshot.id, segPlugin)
+		seg, err := s.loadSegment(segSnapshot.id, segPlugin)
 		if err != nil {
+			closeLoadedSegments(snapshot, i)
 			return nil, fmt.Errorf("error opening segment %d: %w", segSnapshot.id, err)
 		}
+		segSnapshot.segment = seg
 
 		snapshot.offsets = append(snapshot.offsets, running)
 		running += segSnapshot.segment.Count()
 	}
 
 	return snapshot, nil
+}
+
+// closeLoadedSegments releases the first n segments of a snapshot
+// which is abandoned while it is being loaded
+func closeLoadedSegments(snapshot *Snapshot, n int) {
+	for _, segSnapshot := range snapshot.segment[:n] {
+		_ = segSnapshot.segment.DecRef()
+	}
 }
 
 func (s *Writer) loadSegment(id uint64, plugin *SegmentPlugin) (*segmentWrapper, error) {
